@@ -202,6 +202,7 @@ def run(ctx):
         pat = operand_pattern(e, kn, qn, variant_of_kind, enum_params)
         if e["opname"] == "SpecConstantOp":
             nested_variadic(ctx, S, rp, res, nested_entries, kn, qn, variant_of_kind)
+        conforming_shapes_accepted(ctx, rp, e, res, kn, qn, variant_of_kind, enum_params)
         for r in res:
             npaths += 1
             if r.status == "loop_bound":
@@ -229,6 +230,64 @@ def run(ctx):
     ctx.extra["transitions"] = npaths
     ctx.extra["cvc5"] = q.summary()
     ctx.extra["explanation"] = "parse_inst executed symbolically per grammar entry; every path classified against framing and grammar-acceptance rules."
+
+
+def conforming_shapes_accepted(ctx, rp, e, res, kn, qn, variant_of_kind, enum_params):
+    """Completeness direction of 'accepts exactly the grammar': every shape of conforming operand list (each prefix of the
+    optional operands present, the variadic operand 0, 1 and 2 times) must have an ACCEPTING path; a parser that is too strict
+    (an optional operand demanded, a variadic one accepted once only) has none for some shape."""
+    simple = []
+    for k, qq in e["operands"]:
+        kind, quant = kn[k], qn[qq]
+        if kind in ("IdResultType", "IdResult"):
+            continue
+        if kind in ("LiteralContextDependentNumber", "PairLiteralIntegerIdRef", "LiteralSpecConstantOpInteger", "LiteralString") or \
+                kind in enum_params or kind in ("ImageOperands", "LoopControl", "MemoryAccess", "TensorAddressingOperands") or kind.startswith("Pair"):
+            return          # shapes with context-dependent widths / parameters are covered by C10 / C17
+        simple.append((variant_of_kind.get(kind), quant))
+    if not simple or all(q_ == "One" for _, q_ in simple):
+        return
+    accepted = set()
+    for r in res:
+        if r.status == "return" and isinstance(r.value, sym.Adt) and r.value.variant == "Ok":
+            accepted.add(tuple(o.variant for o in r.value.fields[0].fields[3].items if isinstance(o, sym.Adt)))
+    req = [v for v, q_ in simple if q_ == "One"]
+    opts = [v for v, q_ in simple if q_ == "ZeroOrOne"]
+    var = [v for v, q_ in simple if q_ == "ZeroOrMore"]
+    shapes = []
+    for n_opt in range(len(opts) + 1):
+        base = req + opts[:n_opt]
+        if n_opt == len(opts) and var:
+            for rep in (0, 1, 2):
+                shapes.append(tuple(base + var * rep))
+        else:
+            shapes.append(tuple(base))
+    missing = [s_ for s_ in shapes if s_ not in accepted]
+    if not missing:
+        ctx.ob("parse_inst/%s/all-conforming-shapes-accepted" % e["opname"], True, "%d shapes" % len(shapes))
+        return
+    # native confirmation with concrete words (ids 1.., enumerants 0)
+    shape = missing[0]
+    kinds = [kn[k] for k, _ in e["operands"]]
+    words = [0]
+    nid = 1
+    if "IdResultType" in kinds:
+        words.append(nid); nid += 1
+    if "IdResult" in kinds:
+        words.append(nid); nid += 1
+    for v in shape:
+        words.append(nid if v.startswith("Id") else 0)
+        nid += 1
+    words[0] = (len(words) << 16) | e["opcode"]
+    hexb = HEADER + "".join(le(w) for w in words)
+    real = rp.ask("parse_script %s C" % hexb)
+    if real.get("result") != "Ok":
+        ctx.ob("parse_inst/%s/all-conforming-shapes-accepted" % e["opname"], False, "no accepting path for %s; native: %s" % (shape, real.get("result")))
+        ctx.violation("parser/%s/conforming-instruction-rejected" % e["opname"],
+                      "Op%s with operands %s conforms to its grammar entry but is rejected: %s" % (e["opname"], list(shape), real.get("result")),
+                      {"cmd": "parse_script %s C" % hexb, "real": real})
+    else:
+        ctx.ob("parse_inst/%s/all-conforming-shapes-accepted" % e["opname"], None, "model has no accepting path for %s but the compiled crate accepts" % (shape,))
 
 
 def nested_variadic(ctx, S, rp, res, nested_entries, kn, qn, variant_of_kind):
@@ -414,7 +473,41 @@ def mask_parameter_bits(ctx, S, q, rp):
         for names, ops_ in old["entries"]:
             for nm in names:
                 want[nm] = [o[0] for o in ops_]
-        for nm, bitv in [("<none>", 0)] + [(n, b) for n, b in consts.items() if b and bin(b).count("1") == 1]:
+        singles = [(n, b) for n, b in consts.items() if b and bin(b).count("1") == 1]
+        # combinations: the parameters of several set bits follow one another in ascending bit order
+        byval = {}
+        for n, b in singles:
+            byval.setdefault(b, n)
+        pbits = sorted(b for b, n in byval.items() if want.get(n))
+        combos = []
+        if len(pbits) > 1:
+            combos.append(tuple(pbits))
+            for i in range(len(pbits)):
+                for j in range(i + 1, len(pbits)):
+                    combos.append((pbits[i], pbits[j]))
+            if ctx.tier != "quick":
+                for i in range(len(pbits)):
+                    for j in range(i + 1, len(pbits)):
+                        for k in range(j + 1, len(pbits)):
+                            combos.append((pbits[i], pbits[j], pbits[k]))
+            # a parameterless bit next to a parameterised one
+            plain = sorted(b for b, n in byval.items() if not want.get(n))
+            if plain:
+                combos.append((plain[0], pbits[0]))
+        seen_c = set()
+        multi = []
+        for cb in combos:
+            cb = tuple(sorted(set(cb)))
+            if len(cb) < 2 or cb in seen_c:
+                continue
+            seen_c.add(cb)
+            nm = "+".join(byval[b] for b in cb)
+            want[nm] = [o for b in cb for o in want.get(byval[b], [])]
+            v = 0
+            for b in cb:
+                v |= b
+            multi.append((nm, v))
+        for nm, bitv in [("<none>", 0)] + singles + multi:
             eng = S.engine(loop_bound=6)
             off = z3.BitVecVal(40, 64)
             mem = {("h", "p"): S.parser_value(off, None, z3.BitVecVal(1, 64))}
